@@ -236,8 +236,8 @@ def rows_with_stack(df, sym: List[str], extra=None) -> List[Dict[str, Any]]:
         name = sym[int(t[7])]
         r = {"id": hta.ival(t[0]), "ts": hta.ival(t[1]), "dur": hta.ival(t[2]), "pid": hta.ival(t[3]), "tid": hta.ival(t[4]),
              "stream": hta.ival(t[5]), "link": hta.ival(t[6]), "name": name, "cat": sym[int(t[8])],
-             "parent": hta.ival(t[9]), "depth": hta.ival(t[10]), "height": hta.ival(t[11]), "nk": hta.ival(t[12]),
-             "ksum": hta.ival(t[13]), "kfirst": hta.ival(t[14]), "klast": hta.ival(t[15]), "kspan": hta.ival(t[16]), "corr": hta.ival(t[17]),
+             "parent": hta.oval(t[9]), "depth": hta.oval(t[10]), "height": hta.oval(t[11]), "nk": hta.oval(t[12]),
+             "ksum": hta.oval(t[13]), "kfirst": hta.oval(t[14]), "klast": hta.oval(t[15]), "kspan": hta.oval(t[16]), "corr": hta.ival(t[17]),
              "step": name.startswith("ProfilerStep#"), "bwdann": name.startswith("## backward ##"), "auto": "autograd::" in name}
         if extra:
             r.update(extra(r))
